@@ -229,6 +229,12 @@ func init() {
 						c.Eval(1)
 					}
 				}
+				var firstFailing []int
+				for k, op := range ops {
+					if strings.HasPrefix(op.name, "Response(bad") || op.name == "Response(missing)" {
+						firstFailing = append(firstFailing, k)
+					}
+				}
 				var clock atomic.Int64
 				records := make([][]opRecord, cfg.g)
 				var wg sync.WaitGroup
@@ -242,6 +248,11 @@ func init() {
 						<-start
 						for n := 0; n < 200; n++ {
 							k := rng.Intn(len(ops))
+							// the first two operations of every goroutine are failing Responses: whatever
+							// the template sets up lazily for its error page is set up by all of them at once
+							if n < 2 {
+								k = firstFailing[(g+n)%len(firstFailing)]
+							}
 							t0 := clock.Add(1)
 							res := ops[k].run(tpl, data, abs)
 							t1 := clock.Add(1)
